@@ -84,7 +84,11 @@ def allformat_read_campaign(ctx, stride=1, nops=30, channels=(1, 2, 3), route_sk
         for ch in sorted(set(min(c, f.maxch) for c in channels)):
             n = rng.choice(R.pick_lengths(rng, f))
             jobs.append((f, ch, n))
-    jobs = jobs[rng.randrange(stride)::stride] if stride > 1 else jobs
+    if stride > 1:
+        # sample-granular formats are thinned out; block codecs (where position arithmetic can go wrong in more ways) never are
+        blk = [j for j in jobs if R.block_hint(j[0]) > 1]
+        gran = [j for j in jobs if R.block_hint(j[0]) <= 1]
+        jobs = blk + gran[rng.randrange(stride)::stride]
     ws = [("%s-c%d-n%d-%d" % (f.name, ch, n, i), R.write_phase(rng, f, ch, n)) for i, (f, ch, n) in enumerate(jobs)]
     out = ctx.batch(ws)
     findings, stats, tests = [], collections.Counter(), []
